@@ -113,16 +113,25 @@ Moments momentsOf(const vector<double>& x)
   return m;
 }
 
-// KS distance of the sorted sample xs against F; cdf values outside [0,1] by more than 1e-6 (or NaN) are counted in bad
+// KS distance of the sorted sample xs against F; cdf values outside [0,1] by more than 1e-6 (or NaN) are counted in bad.
+// A returned double stands for a real draw within a few ulps of it (a shifted sampler absorbs draws much smaller than
+// the shift: offset + 1e-20 == offset), so the empirical cdf at x is compared with F(x + r) from below and F(x - r)
+// from above, r = 4 ulp(x) (+ the denormal floor).  For r = 0 this is the usual two-sided statistic.
 template<class Cdf> double ksDistance(const vector<double>& xs, Cdf F, double& where, size_t& bad)
 {
   double D = 0, n = static_cast<double>(xs.size());
   where = xs.empty() ? 0 : xs[0];
   for (size_t i = 0; i < xs.size(); ++i)
   {
-    double f = F(xs[i]);
-    if (!(f >= -1e-6 && f <= 1 + 1e-6)) { ++bad; continue; }
-    double d = max(f - static_cast<double>(i) / n, static_cast<double>(i + 1) / n - f);
+    double r = 4 * std::numeric_limits<double>::epsilon() * std::fabs(xs[i]) + std::numeric_limits<double>::min();
+    double fl = F(xs[i] - r), fu = F(xs[i] + r);
+    if (!(fl >= -1e-6 && fl <= 1 + 1e-6 && fu >= -1e-6 && fu <= 1 + 1e-6))
+    {
+      // the radius may leave the support where the library's cdf reports an error: fall back to the point itself
+      fl = fu = F(xs[i]);
+      if (!(fl >= -1e-6 && fl <= 1 + 1e-6)) { ++bad; continue; }
+    }
+    double d = max(fl - static_cast<double>(i) / n, static_cast<double>(i + 1) / n - fu);
     if (d > D) { D = d; where = xs[i]; }
   }
   return D;
@@ -769,8 +778,9 @@ void caseDistRand(vrt::Case& c)
     string w = "SimpleDiscreteDistribution(values " + vrt::vecStr(vals) + ", probabilities " + vrt::vecStr(pr) + ")";
     vrt::describe("Simple", w);
     unique_ptr<SimpleDiscreteDistribution> d;
-    vrt::Outcome o = vrt::capture([&] { d.reset(new SimpleDiscreteDistribution(vals, pr)); });
-    if (!o.returned()) { vrt::tally("rand-simple-ctor-refused"); break; }
+    bool fixed = c.rng.chance(0.5); // without / with V_i, theta_i parameters
+    vrt::Outcome o = vrt::capture([&] { d.reset(new SimpleDiscreteDistribution(vals, pr, NumConstants::TINY(), fixed)); });
+    if (!o.returned()) { vrt::tally(string("rand-simple-ctor-refused:") + (fixed ? "fixed" : "parametrised")); vrt::note(o.text()); break; }
     judgeRand("Simple", w, seed, *d);
     vrt::cover(string("rand:Simple:") + (kind == 7 ? "with-zero-probabilities" : "positive") + (m == 1 ? ":m1" : ""));
     break;
@@ -1548,17 +1558,17 @@ int main(int argc, char** argv)
   const size_t nExh = exhIndex().rows.size();
   vector<vrt::Group> groups = {
     { "seed-repro", 16, 16, caseSeedRepro, 600, true },
-    { "cont-sampler", 180, 3000, caseContSampler, 600, false },
-    { "dist-randC", 240, 4000, caseDistRandC, 900, false },
-    { "dist-rand", 200, 3000, caseDistRand, 600, false },
-    { "picks", 260, 4000, casePicks, 600, false },
+    { "cont-sampler", 360, 3000, caseContSampler, 600, false },
+    { "dist-randC", 480, 4000, caseDistRandC, 900, false },
+    { "dist-rand", 400, 3000, caseDistRand, 600, false },
+    { "picks", 520, 4000, casePicks, 600, false },
     { "sample-exact", 4 * 13 * 15, 4 * 13 * 15, caseSampleExact, 600, true },
     { "pick-exact", 3 * 13, 3 * 13, casePickExact, 600, true },
     { "rcont2-exhaustive", nExh, nExh, caseRcontExhaustive, 1800, true },
     { "rcont2-random", 1500, 40000, caseRcontRandom, 600, false },
     { "ctest-pvalue", 3000, 100000, caseCtest, 600, false },
-    { "hmm-sample", 60, 1000, caseHmm, 600, false },
-    { "dirichlet", 24, 300, caseDirichlet, 600, false },
+    { "hmm-sample", 120, 1000, caseHmm, 600, false },
+    { "dirichlet", 48, 300, caseDirichlet, 600, false },
   };
   vrt::Meta meta;
   meta.rule = "seed-repro: the run seed and 15 derived seeds, one fixed program of every sampler run twice after setSeed. cont-sampler / dist-randC / dist-rand / picks / hmm-sample / dirichlet: "
